@@ -47,6 +47,9 @@ pub enum EditOp {
         mtime: Option<(i64, u32)>,
         owner: Option<(u32, u32)>,
     },
+    /// `count` empty files `<dir>/<prefix>NNNNN` with the same metadata (for indexes with
+    /// more hunks than fit in one index subdirectory).
+    BulkEmptyFiles { dir: String, prefix: String, count: u32, meta: Meta },
 }
 
 impl EditOp {
@@ -55,6 +58,7 @@ impl EditOp {
             EditOp::Put { path, .. } | EditOp::Remove { path } | EditOp::SetMeta { path, .. } => {
                 path
             }
+            EditOp::BulkEmptyFiles { dir, .. } => dir,
             EditOp::Rename { from, .. } => from,
         }
     }
@@ -162,6 +166,19 @@ impl TreeModel {
                     let n = self.nodes.remove(&k).unwrap();
                     let nk = format!("{to}{}", &k[from.len()..]);
                     self.nodes.insert(nk, n);
+                }
+                true
+            }
+            EditOp::BulkEmptyFiles { dir, prefix, count, meta } => {
+                if !self.is_dir(dir) {
+                    return false;
+                }
+                for i in 0..*count {
+                    let p = join_apath(dir, &format!("{prefix}{i:05}"));
+                    if self.nodes.contains_key(&p) {
+                        continue;
+                    }
+                    self.nodes.insert(p, TNode { kind: NodeKind::File { size: 0, cseed: 0 }, meta: *meta });
                 }
                 true
             }
@@ -338,6 +355,16 @@ pub fn apply_edit(model: &mut TreeModel, root: &Path, e: &EditOp) -> std::io::Re
         EditOp::SetMeta { path, .. } => {
             let n = model.nodes.get(path).unwrap().clone();
             set_meta_on_disk(&disk_path(root, path), &n)?;
+        }
+        EditOp::BulkEmptyFiles { dir, prefix, count, meta } => {
+            let node = TNode { kind: NodeKind::File { size: 0, cseed: 0 }, meta: *meta };
+            for i in 0..*count {
+                let p = disk_path(root, &join_apath(dir, &format!("{prefix}{i:05}")));
+                if !p.exists() {
+                    std::fs::write(&p, b"")?;
+                    set_meta_on_disk(&p, &node)?;
+                }
+            }
         }
     }
     Ok(true)
